@@ -160,7 +160,9 @@ Example C07_example_refusal :
 Proof. reflexivity. Qed.
 
 (* Objects that hold only public material fail the precondition of every private operation
-   (sign, certify, revoke, revoker, bind, decrypt), whatever else is true of them *)
+   (sign, certify, revoke, revoker, bind, decrypt), whatever else is true of them.  ks_public / ks_protected /
+   ks_cleartext are the attributes of the component the decorator selects for the work (repair cab6d36: a subkey when
+   only it carries the usage flag); all components of a public object are public *)
 Theorem C07_public_refuses_private_ops : forall a st, In a private_actions -> ks_public st = true -> key_action a st <> Run.
 Proof. exact public_refuses_private_ops. Qed.
 Print Assumptions C07_public_refuses_private_ops.
